@@ -56,9 +56,9 @@ SCOPE = {
              'new names in non-alphabetical order; move indexes -1..len+1; setitem with int key) x for union/intersection '
              '(method ignore False/True, |=, &=) every second definition of the same universe + the aliased call (d |= d); moves additionally on all 3x1 / 1x3 definitions with indexes -3..4. '
              'SAMPLED: 250 seeded random histories of length <= 40 over 4+4 names, argument lists <= 4 names',
-    'thorough': 'EXHAUSTIVE: as quick (2+2 universe, name lists <= 3 names). '
+    'thorough': 'EXHAUSTIVE: as quick (2+2 universe and the 3x1 / 1x3 moves), with all name lists <= 3 names. '
                 'Universes 3+2 ({a,b,c} x {x,y}) and 2+3: all definitions x all non-list operation instances exhaustively; '
-                'add/set name lists: all lists <= 2 names + seeded sample of 12 lists of 3 names per (definition, operation); '
+                'add/set name lists: all lists <= 2 names + seeded sample of 12 lists of 3 names per definition and axis; '
                 'union/intersection: seeded sample of 24 second definitions per definition (SAMPLED). '
                 '6000 seeded random histories of length <= 40 over 4+4 names, argument lists <= 4 names (SAMPLED)',
 }
@@ -470,6 +470,7 @@ def gen_cases(tier, rng):
             yield random_history(rng)
     else:
         yield from per_operation_cases(small_o, small_p, 3, rng)
+        yield from move_supplement()
 
         def in_small(init):        # already covered by the 2+2 universe
             return set(init[0]) <= set(small_o) and set(init[1]) <= set(small_p)
